@@ -124,7 +124,7 @@ Definition domain (inp : list Z) : list Z :=
       else match r with
            | n :: r' =>
                let segs := dec_segs (length r') n r' in
-               (if wf_case d segs then 1 else 0) :: enc_str (unparse d segs)
+               (if wf_case d (bit bits 4) segs then 1 else 0) :: enc_str (unparse d segs)
            | [] => [9]
            end
   | _ => [9]
